@@ -55,6 +55,9 @@ Definition days_in (y m : Z) : Z :=
   if m =? 2 then (if is_leap y then 29 else 28)
   else if (m =? 4) || (m =? 6) || (m =? 9) || (m =? 11) then 30 else 31.
 
+Fixpoint drop_spaces (s : bytes) : bytes := match s with 32%N :: r => drop_spaces r | _ => s end.
+Fixpoint drop_space_lits (l : list ltoken) : list ltoken := match l with Lit 32%N :: r => drop_space_lits r | _ => l end.
+
 (** fields parsed so far; Go's defaults are year 0, month 1, day 1 *)
 Fixpoint parse_tokens (l : list ltoken) (s : bytes) (y m d : Z) : option (Z * Z * Z) :=
   match l with
@@ -66,7 +69,14 @@ Fixpoint parse_tokens (l : list ltoken) (s : bytes) (y m d : Z) : option (Z * Z 
   | D2 :: r => match take_digits 2 s 0 with
                | Some (v, s') => if (0 <=? v) && (v <=? 31) then parse_tokens r s' y m v else None
                | None => None end
-  | Lit c :: r => match s with c' :: s' => if (c =? c')%N then parse_tokens r s' y m d else None | [] => None end
+  | Lit c :: r =>
+      if (c =? 32)%N then
+        (* time.skip: a space in the layout stands for any run of spaces in the value, also an empty one at its end *)
+        match s with
+        | [] => parse_tokens (drop_space_lits r) [] y m d
+        | c' :: _ => if (c' =? 32)%N then parse_tokens (drop_space_lits r) (drop_spaces s) y m d else None
+        end
+      else match s with c' :: s' => if (c =? c')%N then parse_tokens r s' y m d else None | [] => None end
   end.
 
 (** [time.Parse layout s]: the civil date, or [None] for any parse error *)
